@@ -303,7 +303,13 @@ pub fn run(ctx: &mut Ctx) -> (&'static str, String, bool) {
                     }
                     // well-formed multi-byte text where the peer may put text: UTF-8 / double-byte snippets (digits followed
                     // by a multi-byte character, marker + lead byte, ...) written over every offset after the header
-                    const SNIPPETS: [&[u8]; 10] = [
+                    const SNIPPETS: [&[u8]; 16] = [
+                        b"XFG\0",
+                        b"FBM\0",
+                        b"ABC\0",
+                        b"xfg\0",
+                        b"\0\0\0\0",
+                        b"BL1\0\0\0",
                         "0.7é".as_bytes(),
                         "1日".as_bytes(),
                         "0.6В9".as_bytes(),
